@@ -168,7 +168,10 @@ func (dist *TDistribution) Pdf(r Scalar, x ConstVector) error {
 /* -------------------------------------------------------------------------- */
 
 func (dist *TDistribution) GetParameters() Vector {
-  p := dist.Mu
+  // same layout as SetParameters: nu, mu, sigma
+  p := NullDenseVector(dist.ScalarType(), 0)
+  p  = p.AppendScalar(dist.Nu)
+  p  = p.AppendVector(dist.Mu)
   p  = p.AppendVector(dist.Sigma.AsVector())
   return p
 }
